@@ -12,6 +12,9 @@ from ..core import HarnessError
 ID = 'C17'
 TITLE = 'bitemporal store: as-of reads see exactly what was published'
 LEVEL = 'exploration'
+TECHNIQUE = 'runtime monitoring: history + executable ledger model; as-of reads at T before/on/between/after every stamp after every merge; idempotence by re-merge'
+LEVEL_TEXT = 'Held on the publication histories explored (2-8 versions, up to 30 dates, shared stamps, NaN, reverts, >16 stored rows). A check says held on K observed executions, never verified.'
+LEVEL_NOTE = 'Trusted: the ledger model; single-column series; stamps non-decreasing as the statement requires.'
 RULE = ('random publication histories: 2-8 versions over 3-30 observation dates (deliberately crossing 16 stored rows), non-decreasing stamps with repeats, values in {0..3, NaN} '
         'so repeats and reverts are common, partial versions, dates first appearing late; after every merge reads at T before/on/between/after each stamp for what in {-1, 0}; '
         'non-trivial = (>=2 versions share a stamp and >16 stored rows) or a revert to an earlier value; distinct = canonical hash of the history')
